@@ -731,12 +731,15 @@ func writeEvidence(id, tier string, seed int, reports []*harnessReport, confirme
 	}
 	sort.Strings(kn)
 	level := "model_checking"
+	if id == "C15" {
+		level = "other" // reduction to a per-call footprint claim (see explanation)
+	}
 	cov := map[string]interface{}{
 		"states":                        states,
 		"transitions":                   trans,
 		"traces_validated_against_impl": replays,
 		"samples":                       samples,
-		"explanation":                   "bounded symbolic execution of the repository's go/ssa: states = explored paths, transitions = recorded decisions (symbolic branches, shape choices, solver-derived concretisations); every assertion on every path is closed by an SMT query (or is concrete on that path); counterexample candidates are replayed natively",
+		"explanation":                   explanationFor(id) + "bounded symbolic execution of the repository's go/ssa: states = explored paths, transitions = recorded decisions (symbolic branches, shape choices, solver-derived concretisations); every assertion on every path is closed by an SMT query (or is concrete on that path); counterexample candidates are replayed natively",
 		"harnesses":                     hev,
 		"functions_encoded":             fnames,
 		"stubs_and_summaries_hit":       snames,
@@ -768,4 +771,12 @@ func writeEvidence(id, tier string, seed int, reports []*harnessReport, confirme
 	if err := os.WriteFile(filepath.Join(verifDir, "evidence", id+".json"), b, 0o644); err != nil {
 		fatal(err)
 	}
+}
+
+
+func explanationFor(id string) string {
+	if id == "C15" {
+		return "C15 is decided by reduction, not by enumerating schedules: a data race needs two unsynchronised accesses to one location, at least one a write; the footprint monitor shows, on every explored path, that the call writes no object that existed before it started except through sync.Map, sync.Once or under a held mutex, so any interleaving of such calls is race-free and each returns what it returns alone. "
+	}
+	return ""
 }
